@@ -196,6 +196,42 @@ fn seeded_case(r: &mut Prng, big: bool) -> Case {
         c.post.push(Op::Describe { prog: all_kinds_program() });
         c.post.push(Op::Describe { prog: progs[1].clone() });
     }
+    if r.chance(1, 5) {
+        // a manager handle KEPT in a binding: what is registered through it is in effect at once (describe()
+        // while the handle is alive), a later registration of the same key through another handle wins,
+        // and dropping the handle changes nothing
+        let (k, name) = r.pick(&singles()).clone();
+        let (k2, name2) = r.pick(&singles()).clone();
+        let regs = vec![(k, name.clone(), next_id), (k2, name2, next_id + 1)];
+        let mut then = vec![Op::Describe { prog: all_kinds_program() }];
+        if r.chance(1, 2) {
+            then.push(Op::SetDesc { kind: k, name, id: next_id + 2 });
+            then.push(Op::Describe { prog: all_kinds_program() });
+        }
+        next_id += 3;
+        c.pre.push(Op::WithManager { regs, then });
+        c.pre.push(Op::Describe { prog: all_kinds_program() });
+    }
+    if r.chance(1, 16) {
+        // a LONG registration history (70..200 registrations, most of them for unrelated names, some keys
+        // registered again and again): the latest registration of every key stays in effect
+        let n = 70 + r.usize(if big { 330 } else { 130 });
+        let hot: Vec<(DKind, String)> = (0..3).map(|_| r.pick(&singles()).clone()).collect();
+        for i in 0..n {
+            let (k, name) = if r.chance(1, 5) {
+                r.pick(&hot).clone()
+            } else {
+                let k = *r.pick(&[DKind::Unary, DKind::Binary, DKind::Postfix, DKind::Function, DKind::Reference]);
+                (k, format!("unrelated{}", i))
+            };
+            c.pre.push(Op::SetDesc { kind: k, name, id: next_id });
+            next_id += 1;
+            if r.chance(1, 25) {
+                c.pre.push(Op::Describe { prog: all_kinds_program() });
+            }
+        }
+        c.tag = "seeded+long-registration-history".into();
+    }
     c.pre.push(Op::Describe { prog: all_kinds_program() });
     c.pre.push(Op::Describe { prog: progs[1].clone() });
     // different trees with the same expr() text, described one after the other
@@ -241,7 +277,7 @@ impl Prop for C18 {
                 "the reference describe() walks the harness's own tree; literal rendering is expr()'s (numbers as written, strings in double quotes)",
             ],
             fault_kinds: &["fresh_process", "register_before_first_use", "reenter_describe", "preempt_in_call"],
-            probes: &["single_registrations_run", "binary_descriptor_used", "lookalike_name_other_kind", "re_registration", "concurrent_registrations", "same_symbol_prefix_and_postfix", "operation_on_another_thread", "describe_races_reregistration"],
+            probes: &["single_registrations_run", "binary_descriptor_used", "lookalike_name_other_kind", "re_registration", "concurrent_registrations", "same_symbol_prefix_and_postfix", "operation_on_another_thread", "describe_races_reregistration", "manager_handle_kept_across_describe", "long_registration_history"],
         }
     }
 
@@ -322,8 +358,15 @@ impl Prop for C18 {
         let mut nontrivial = false;
         let flat: Vec<&Op> = case.pre.iter().flat_map(|o| match o {
             Op::OnThread { ops } => ops.iter().collect::<Vec<_>>(),
+            Op::WithManager { then, .. } => {
+                rt.probe("manager_handle_kept_across_describe");
+                then.iter().collect::<Vec<_>>()
+            }
             o => vec![o],
         }).collect();
+        if case.tag.ends_with("long-registration-history") {
+            rt.probe("long_registration_history");
+        }
         if case.pre.iter().any(|o| matches!(o, Op::OnThread { .. })) {
             rt.probe("operation_on_another_thread");
         }
